@@ -39,6 +39,19 @@ def make(kind, env, seed=0, **kw):
         from rl4co.models import AttentionModelPolicy
 
         p = AttentionModelPolicy(env_name=name, embed_dim=32, num_encoder_layers=2, num_heads=2, normalization="instance", use_graph_context=False, **kw)
+    elif kind in ("am_moe", "am_moe_light"):
+        # MVMoE-style encoder/decoder mixture of experts; freshly initialised gates are all zero (uniform routing), so the
+        # gate weights are randomised as any trained checkpoint's would be; noisy gating is only active in train mode
+        from rl4co.models import AttentionModelPolicy
+
+        mk = {"encoder": {"hidden_act": "ReLU", "num_experts": 4, "k": 2, "noisy_gating": True},
+              "decoder": {"light_version": kind == "am_moe_light", "num_experts": 4, "k": 2, "noisy_gating": True}}
+        p = AttentionModelPolicy(env_name=name, embed_dim=32, num_encoder_layers=2, num_heads=2, normalization="instance", use_graph_context=False, moe_kwargs=mk, **kw)
+        g = torch.Generator().manual_seed(seed + 99)
+        for n_, prm in p.named_parameters():
+            if n_.endswith("w_gate"):
+                with torch.no_grad():
+                    prm.copy_(torch.randn(prm.shape, generator=g) * 0.7)
     elif kind == "am_layernorm":
         from rl4co.models import AttentionModelPolicy
 
